@@ -5,6 +5,11 @@ TH = 'torchtree/evolution/tree_height_transform.py'
 SM = 'torchtree/evolution/site_model.py'
 GM = 'torchtree/distributions/gmrf.py'
 TL = 'torchtree/evolution/tree_likelihood.py'
+JD = 'torchtree/distributions/joint_distribution.py'
+BD = 'torchtree/evolution/bdsk.py'
+TP = 'torchtree/distributions/tree_prior.py'
+CT = 'torchtree/distributions/ctmc_scale.py'
+DD = 'torchtree/distributions/distributions.py'
 
 
 def T(id, file, old, new, expect=None, benign=False):
@@ -24,4 +29,19 @@ CORPUS = [
     T('c10-benign-reduction-of-index-range', CO, "        lchoose2 = lineage_count * (lineage_count - 1) / 2.0\n        log_thetas = torch.log(", "        lchoose2 = lineage_count * (lineage_count - 1) / 2.0\n        n_events = torch.ones(node_heights.shape[-1]).sum()\n        log_thetas = torch.log(", benign=True),
     T('c10-benign-named-axis-keyword', SM, "        self._rates = rates / (rates * self._probabilities).sum(-1, keepdim=True)", "        self._rates = rates / (rates * self._probabilities).sum(dim=-1, keepdim=True)", benign=True),
     T('c10-benign-branch-condition', TL, "            if torch.any(torch.isinf(log_p)):\n                self.rescale = True\n                log_p = calculate_treelikelihood_discrete_safe(", "            if torch.isinf(log_p).any():\n                self.rescale = True\n                log_p = calculate_treelikelihood_discrete_safe(", benign=True),
+    T('c10-joint-classifies-by-its-own-sample-shape', JD, "            sample_shape = distr.sample_shape\n", "            sample_shape = self.sample_shape\n", expect=[('C10.J', 'component-classified-by-its-own-sample-shape')]),
+    T('c10-joint-sums-every-axis', JD, "        return torch.cat(log_p, -1).sum(-1)", "        return torch.cat(log_p, -1).sum()", expect=[('C10.J', 'components-added-along-the-last-axis-only')]),
+    T('c10-benign-joint-shape-name', JD, "            sample_shape = distr.sample_shape\n            if lp.shape == sample_shape:", "            sample_shape = distr.sample_shape\n            if lp.shape == distr.sample_shape:", benign=True),
+    T('c10-rates-branch-axis-from-the-front', TL, "            rates = rates.reshape(sample_shape + (1, -1))", "            rates = rates.unsqueeze(1)", expect=[('C10.P', 'TreeLikelihoodModel._call::rates.unsqueeze(1)')]),
+    T('c10-benign-rates-branch-axis-from-the-end', TL, "            rates = rates.reshape(sample_shape + (1, -1))", "            rates = rates.unsqueeze(-2)", benign=True),
+    T('c10-clock-branch-lengths-one-rank-too-far', TL, "                bls = self.clock_model.rates * branch_lengths.expand(\n                    sample_shape + (-1,)\n                )", "                bls = self.clock_model.rates * branch_lengths.expand(\n                    sample_shape + (1, -1)\n                )",
+      expect=[('C10.R', 'TreeLikelihoodModel._call')]),
+    T('c10-bdsk-root-height-drops-the-axis', BD, "                origin = origin + node_heights[..., -1:]", "                origin = origin + node_heights[..., -1]", expect=[('C10.A', 'PiecewiseConstantBirthDeath.log_prob')]),
+    T('c10-dirichlet-prior-sum-drops-the-axis', TP, "        sum_x = x.sum(-1, keepdim=True)", "        sum_x = x.sum(-1)", expect=[('C10.A', 'CompoundGammaDirichletPrior._call')]),
+    T('c10-ctmc-scale-ignores-the-tree', CT, "        return max(self.x.tensor.shape[:-1], self.tree_model.sample_shape, key=len)", "        return self.x.tensor.shape[:-1]", expect=[('C10.C', 'CTMCScale::sample-shape-counts')]),
+    T('c10-dirichlet-prior-ignores-hyperparameters', TP, "        return max(\n            [self.tree_model.sample_shape]\n            + [parameter.shape[:-1] for parameter in self._parameters.values()],\n            key=len,\n        )", "        return self.tree_model.sample_shape",
+      expect=[('C10.C', 'CompoundGammaDirichletPrior::sample-shape-counts')]),
+    T('c10-distribution-sample-shape-equal-rank', DD, "        elif len(x_shape) == len(self.batch_shape):\n", "        elif len(x_shape) == len(self.batch_shape) + 7:\n", expect=[('C10.S', "Distribution._sample_shape::x['S', 'N']::parameters['S', '1']")]),
+    T('c10-benign-distribution-sample-shape-reordered', DD, "        if len(x_shape) > len(self.batch_shape):\n            offset = 1 if len(self.batch_shape) == 0 else len(self.batch_shape)\n            return x_shape[:-offset]\n        elif len(x_shape) == len(self.batch_shape):",
+      "        if len(x_shape) > len(self.batch_shape):\n            offset = max(1, len(self.batch_shape))\n            return x_shape[:-offset]\n        elif len(self.batch_shape) == len(x_shape):", benign=True),
 ]
